@@ -96,6 +96,8 @@ func c14UserPanic(res *Result) {
 
 func suiteC14(cfg Config, res *Result) {
 	defer c14PrefilledBuffer(res)
+	defer c14NestedWriters(res)
+	defer bytesBelongToCaller(res, "variants", "c14-bytes-owner")
 	defer reentrancy(res, "variants", "c14-reentrant-execution")
 	defer c14StaticWriterErrors(res)
 	defer c14OptionsAfterCompile(res)
